@@ -192,8 +192,9 @@ theorem c01_pwd_assign (c : Cfg) (s : State) (hr : Reachable c s) (w va vb : Nat
   · rw [hk] at h1; cases h1
   · rw [hk] at h1; injection h1 with h1; rw [h2, ← h1]; rfl
 
-/-- as-is witness: with the self-move the same scenario (a waiter, nobody calls, `a` with default 61 takes over the future
-of `b` with default 43 and is destroyed) resolves the future with 61 -/
+/-- as-is witness (the code before `/repo` commit 4ed6196; replay `corpus/c01_pwd_assign_default.txt`): with the self-move the
+same scenario (a waiter, nobody calls, `a` with default 61 takes over the future of `b` with default 43 and is destroyed)
+resolves the future with 61 -/
 theorem c01_pwd_assign_asis_witness :
     let c : Cfg := { n := 2, kind := fun i => if i = 0 then Kind.wait WK.coro else Kind.ddef (assignedDefaultAsIs 61 43) }
     (run c (init c) [0, 0, 1, 1, 1, 1]).slot = Slot.ready ∧ (run c (init c) [0, 0, 1, 1, 1, 1]).winner = some 1
@@ -231,8 +232,10 @@ theorem c01_pwd_assign_over (c : Cfg) (s : State) (hr : Reachable c s) (w : Nat)
     · rw [hk] at h1; cases h1
     · rw [hk] at h1; injection h1 with h1; rw [h2, ← h1]
 
-/-- as-is witness: a `has_value()` awaiter and a coroutine wait, the promise (default 45) is replaced by move-assignment:
-with the pinned operators the future is resolved without a value and the waiters see `has_value() == false` / canceled -/
+/-- as-is witness (the code before `/repo` commit e4e0094 "fix: move-assignment over a promise_with_default dropped its future
+instead of delivering the default"; replay `corpus/c01_pwd_assign_over.txt`): a `has_value()` awaiter and a coroutine wait, the
+promise (default 45) is replaced by move-assignment: with the pinned operators the future is resolved without a value and the
+waiters see `has_value() == false` / canceled -/
 theorem c01_pwd_assign_over_asis_witness :
     let c : Cfg := { n := 3, kind := fun i => match i with
       | 0 => Kind.wait WK.hasv | 1 => Kind.wait WK.coro | _ => assignOverKindAsIs (some 45) }
